@@ -285,6 +285,16 @@ class C06(Check):
                       ("Comparison", L, ("str", "<"), x), ("If", L, x, L), ("LogicalNot", L),
                       ("LogicalAnd", T(L, x)), ("BitwiseNot", L), ("tuple", L, x)):
                 yield ("t", t)
+        # the empty tuple and one-element tuples as elements of tuples, in every position
+        e0, e1 = ("tuple",), ("tuple", x)
+        for tup in (("tuple", e0, x), ("tuple", x, e0), ("tuple", e0, e0), ("tuple", e0),
+                    ("tuple", e1, x), ("tuple", e1), ("tuple", ("tuple", e0), x),
+                    ("tuple", e0, e1, x)):
+            yield ("t", tup)
+            yield ("t", ("Call", V("f"), T(tup)))
+            yield ("t", ("Call", V("f"), T(tup, x)))
+            yield ("t", ("Subscript", V("arr"), tup))
+            yield ("t", ("If", x, tup, x))
         for n in self.NAMES:
             yield ("t", ("Lookup", V("obj"), ("str", n)))
             yield ("t", ("Call", V(n), T(x)))
